@@ -64,3 +64,82 @@ Lemma g_tail_nul_free (p : gprog) : glayout_ok p = true -> nul_free (grender p) 
 Proof.
   unfold glayout_ok, grender. intros H Hn. bsplit. apply nul_free_app in Hn. destruct Hn as [_ Hn]. now apply tail_ws.
 Qed.
+
+(* ================= the same for a reader with a configured atom limit vm (ProgramReader::setMaxVar(vm), vm <= atomMax) =================
+   "in range" then includes: every atom of a rule and every head count is <= vm (SpecG.gin_range_v). *)
+Section MaxVar.
+Variable vm : Z.
+Hypothesis Hvm : vm <= atomMax.
+Let Hvm64 : vm <= INT64_MAX := Z.le_trans _ _ _ Hvm atomMax_le_int64.
+
+Definition describes_v (o : opts) (p : gprog) (t : list Z) : Prop :=
+  glayout_ok p = true /\ gin_range_v vm (claspExt o) p = true /\ t = grender p.
+
+Lemma g_exact_v (o : opts) (t : list Z) :
+  (exists cs, read_smodels_v vm o t = (cs, Ok tt)) <-> (exists p, describes_v o p t).
+Proof.
+  split.
+  - intros [cs H]. destruct (g_sound_v vm o t cs H) as (p & Hl & Hr & Et & _). exists p. repeat split; assumption.
+  - intros (p & Hl & Hr & ->). exists (gdenote p). now apply g_complete_v.
+Qed.
+
+Lemma g_denotes_v (o : opts) (t : list Z) (cs : list call) : read_smodels_v vm o t = (cs, Ok tt) ->
+  (exists p, describes_v o p t /\ cs = gdenote p) /\ (forall p, describes_v o p t -> cs = gdenote p).
+Proof.
+  intros H. split.
+  - destruct (g_sound_v vm o t cs H) as (p & Hl & Hr & Et & Ec). exists p. repeat split; assumption.
+  - intros p (Hl & Hr & Et). subst t. rewrite (g_complete_v vm Hvm64 o p Hl Hr) in H. congruence.
+Qed.
+
+Lemma g_rejects_v (o : opts) (t : list Z) : ~ (exists p, describes_v o p t) -> exists cs ln, read_smodels_v vm o t = (cs, Err ln).
+Proof.
+  intros Hn. pose proof (no_fuel_exhaustion_v vm Hvm o t) as Hf. destruct (read_smodels_v vm o t) as [cs [[]|ln|]] eqn:E.
+  - exfalso. apply Hn. apply (g_exact_v o t). exists cs. exact E.
+  - eauto.
+  - exfalso. apply Hf. reflexivity.
+Qed.
+
+Lemma g_embeds_v (o : opts) (p : lprog) : layout_ok p = true -> in_range_v vm (claspExt o) p = true ->
+  exists q, describes_v o q (render p) /\ gdenote q = denote p.
+Proof.
+  intros Hl Hr. pose proof (complete_v vm Hvm64 o p Hl Hr) as H. destruct (g_sound_v vm o _ _ H) as (q & Lq & Rq & Eq & Dq).
+  exists q. repeat split; try assumption. symmetry. exact Dq.
+Qed.
+
+(* lowering the limit only removes texts: what a reader with limit vm accepts, the reader without a configured limit accepts with
+   the same calls (the limit never changes what an accepted text denotes) *)
+Lemma gratom_mono n : gratom_in vm n = true -> gratom_in sm_varMax n = true.
+Proof. unfold gratom_in, sm_varMax. unfold atomMax in Hvm. intros H. apply andb_prop in H. destruct H as [H1 H2]. apply Z.leb_le in H2. rewrite H1. apply Z.leb_le. lia. Qed.
+Lemma forallb_mono {A} (f g : A -> bool) l : (forall a, f a = true -> g a = true) -> forallb f l = true -> forallb g l = true.
+Proof. intros H. rewrite !forallb_forall. intros Hf a Ha. apply H, Hf, Ha. Qed.
+Lemma gbody_mono b : gbody_in_v vm b = true -> gbody_in_v sm_varMax b = true.
+Proof.
+  unfold gbody_in_v. intros H. apply andb_prop in H. destruct H as [H1 H2]. rewrite H1. cbn [andb].
+  exact (forallb_mono _ _ _ gratom_mono H2).
+Qed.
+Lemma grule_mono e r : grule_in_v vm e r = true -> grule_in_v sm_varMax e r = true.
+Proof.
+  destruct r; cbn [grule_in_v]; intros H;
+    repeat match goal with Hx : _ && _ = true |- _ => apply andb_prop in Hx; destruct Hx end;
+    repeat match goal with
+           | Hx : gratom_in vm _ = true |- _ => apply gratom_mono in Hx; rewrite Hx
+           | Hx : gbody_in_v vm _ = true |- _ => apply gbody_mono in Hx; rewrite Hx
+           | Hx : forallb (gratom_in vm) _ = true |- _ => apply (forallb_mono _ _ _ gratom_mono) in Hx; rewrite Hx
+           | Hx : ?x = true |- _ => rewrite Hx
+           end; reflexivity.
+Qed.
+Lemma gin_range_mono e p : gin_range_v vm e p = true -> gin_range e p = true.
+Proof.
+  unfold gin_range, gin_range_v. intros H. apply andb_prop in H. destruct H as [H H3]. apply andb_prop in H. destruct H as [H1 H2].
+  rewrite H2, H3, !andb_true_r. revert H1. apply forallb_mono. intros s Hs. unfold gstep_in_v in *.
+  repeat match goal with Hx : _ && _ = true |- _ => apply andb_prop in Hx; destruct Hx end.
+  repeat match goal with Hx : ?x = true |- context [?x] => rewrite Hx end. rewrite !andb_true_r.
+  match goal with Hx : forallb (grule_in_v vm e) _ = true |- _ => revert Hx end. apply forallb_mono. apply grule_mono.
+Qed.
+Lemma g_limit_only_removes (o : opts) (t : list Z) (cs : list call) :
+  read_smodels_v vm o t = (cs, Ok tt) -> read_smodels o t = (cs, Ok tt).
+Proof.
+  intros H. destruct (g_sound_v vm o t cs H) as (p & Hl & Hr & -> & ->).
+  apply g_complete; [exact Hl | apply gin_range_mono; exact Hr].
+Qed.
+End MaxVar.
